@@ -1,6 +1,6 @@
 From Coq Require Import String.
 Require Import OV.Base.Bytes OV.Base.Py OV.Base.PyInt OV.Base.Str OV.Base.Regex OV.Base.IO OV.Base.PyFloat.
-Require Import OV.Gen.C10_Units OV.Model.C10.
+Require Import OV.Model.C10_Regex OV.Gen.C10_Units OV.Model.C10.
 From Coq Require Extraction ExtrOcamlBasic.
 
 (* ---- Base/PyFloat.v against CPython ---- *)
@@ -44,7 +44,7 @@ Definition run (args : list bytes) : bytes :=
   else if is_op "rx" op then
     match lookup (nth_arg args 2) unit_system_info with
     | None => lit "NOSYS"
-    | Some (_, r) => match re_match r (nth_arg args 1) with
+    | Some (_, r) => match rz_match r (nth_arg args 1) with
                      | None => lit "None"
                      | Some (e, g) => out_N e ++ [32%N] ++ out_span g 1 ++ [32%N] ++ out_span g 2 ++ [32%N] ++ out_span g 3
                      end
